@@ -210,8 +210,12 @@ func (o *Obs) Apis() map[string]interface{} {
 		"pn1": o.Pn1,
 		"lsv": LocalSrc,
 		"hid": hidden,
+		"tgt": storeTarget,
 	}
 }
+
+// storeTarget is injected as tgt: rules store into tgt.F (the value is never read by an oracle).
+var storeTarget = &struct{ F int64 }{}
 
 // hidden is injected as hid: its only field is unexported.
 type hiddenT struct{ h int64 }
